@@ -123,9 +123,18 @@ func (t *SignalingState) Set(state SignalingState) {
 //nolint:gocognit,cyclop
 func checkNextSignalingState(cur, next SignalingState, op stateChangeOp, sdpType SDPType) (SignalingState, error) {
 	// Special case for rollbacks
-	if sdpType == SDPTypeRollback && cur == SignalingStateStable {
-		return cur, &rtcerr.InvalidModificationError{
-			Err: errSignalingStateCannotRollback,
+	if sdpType == SDPTypeRollback {
+		if cur == SignalingStateStable {
+			return cur, &rtcerr.InvalidModificationError{
+				Err: errSignalingStateCannotRollback,
+			}
+		}
+		// JSEP 4.1.10.2: rolling back the local (remote) offer or pranswer returns to stable.
+		localSide := cur == SignalingStateHaveLocalOffer || cur == SignalingStateHaveLocalPranswer
+		remoteSide := cur == SignalingStateHaveRemoteOffer || cur == SignalingStateHaveRemotePranswer
+		if next == SignalingStateStable &&
+			((op == stateChangeOpSetLocal && localSide) || (op == stateChangeOpSetRemote && remoteSide)) {
+			return next, nil
 		}
 	}
 
